@@ -309,6 +309,9 @@ func (vc *FuncVC) closedAxiom(st *State, key string) {
 		tgt = App(SRef, "sarr", sel)
 	}
 	body := Implies(Select(al, App(SRef, "root", r), SBool), Or(Eq(tgt, Null), Select(al, App(SRef, "root", tgt), SBool)))
+	if key == "H:Slice" {
+		body = And(body, Implies(Select(al, App(SRef, "root", r), SBool), Not(App(SBool, "iscell", App(SRef, "root", tgt)))))
+	}
 	vc.emit("(assert %s)", Forall([]Term{r}, body, sel).S)
 }
 
@@ -525,7 +528,9 @@ func (vc *FuncVC) sliceWF(t Term) Term {
 		App(SBool, "<=", App(SInt, "slen", t), App(SInt, "scap", t)),
 		App(SBool, "<=", App(SInt, "scap", t), BigLit("4611686018427387904")),
 		Implies(Eq(App(SRef, "sarr", t), Null), Eq(App(SInt, "scap", t), IntLit(0))),
-		Eq(App(SInt, "rkind", App(SRef, "sarr", t)), IntLit(0)))
+		Eq(App(SInt, "rkind", App(SRef, "sarr", t)), IntLit(0)),
+		// a backing array is never the cell of a scalar variable (typed disjointness, see DESIGN T1)
+		Not(App(SBool, "iscell", App(SRef, "root", App(SRef, "sarr", t)))))
 }
 
 // allocFacts: every reference reachable in one step from the value is allocated (or nil).
